@@ -91,27 +91,38 @@ prop("C12",
         bounds="all numeric fields full-width u64/u32, all three default policies", stubs=[FMT])])
 
 prop("C26",
-     "Arithmetic of membership batches: the promotion batch size keeps the voter count odd and never exceeds the ready "
+     "Quorum arithmetic: two majorities (is_majority, the predicate elections use) of one voter set of ANY size, even or odd, "
+     "intersect, and majority_count is the least majority. Arithmetic of membership batches: the promotion batch size keeps the voter count odd and never exceeds the ready "
      "learners; and the real safety condition -- every majority of the old voter set intersects every majority of the new "
      "one -- holds for single-server changes and is checked for the batch sizes the code allows.",
      ["d-engine-core/src/raft_role/leader_state.rs", "d-engine-core/src/utils/cluster.rs"],
      ["apply-time vs commit-time activation across nodes", "removal batches"],
      [TRUST_COMPOSE, TRUST_TOOL],
-     [H("c26_batch_size_parity", "h_basic", functions=["calculate_safe_batch_size"], bounds="current, available <= 2^32"),
+     [h_quorum,
+      H("c26_batch_size_parity", "h_basic", functions=["calculate_safe_batch_size"], bounds="current, available <= 2^32"),
       H("c26_single_step_majorities_intersect", "h_basic", functions=["majority_count"], bounds="n <= 2^32, k <= 1"),
       H("c26_allowed_single_promotion_is_safe", "h_basic", functions=["calculate_safe_batch_size", "majority_count"], bounds="1 <= n <= 64 voters, <= 64 ready learners, batch k <= 1"),
       H("c26_allowed_batch_promotion_is_safe", "h_basic", functions=["calculate_safe_batch_size", "majority_count"], bounds="1 <= n <= 64 voters, <= 64 ready learners, batch k >= 2")])
 
 prop("C34",
      "Every numeric configuration accepted by the per-section validators satisfies: election min < max; 0 < lease and "
-     "lease + rtt/2 < election min (no wrap-around); heartbeat interval, per-request entry cap and both batch limits non-zero.",
+     "lease + rtt/2 < election min (no wrap-around); heartbeat interval, per-request entry cap and both batch limits non-zero; "
+     "at least one retained log entry; and RaftConfig::validate (the public entry) enforces all of them together.",
      ["d-engine-core/src/config/raft.rs"],
-     ["RaftConfig::validate composition is covered in the thorough tier only", "non-numeric fields (paths, strings)"],
+     ["non-numeric fields (paths, strings)", "RaftNodeConfig::validate's other sections (cluster, network, storage, tls, retry)"],
      [TRUST_TOOL],
      [H("c34_election_and_read_consistency", "h_basic", functions=["ElectionConfig::validate", "ReadConsistencyConfig::validate"],
         bounds="all numeric fields full-width u64/u32, all three default policies", stubs=[FMT]),
       H("c34_replication_and_batching", "h_basic", functions=["ReplicationConfig::validate", "BatchingConfig::validate"],
-        bounds="all numeric fields full width", stubs=[FMT])])
+        bounds="all numeric fields full width", stubs=[FMT]),
+      H("c34_snapshot_retention", "h_basic", loops=12, timeout=600, functions=["SnapshotConfig::validate", "config::validate_directory"],
+        bounds="nine numeric snapshot fields full width, other fields default",
+        stubs=[FMT, "Path::exists / fs::write / fs::remove_file / fs::create_dir_all -> succeed (directory probe of validate_directory is not the subject)"]),
+      H("c34_raft_config_composition", "h_basic", loops=12, timeout=900,
+        functions=["RaftConfig::validate", "ReplicationConfig::validate", "BatchingConfig::validate", "ElectionConfig::validate", "MembershipConfig::validate",
+                   "StateMachineConfig::validate", "SnapshotConfig::validate", "ReadConsistencyConfig::validate", "ReadActorConfig::validate", "WatchConfig::validate", "PersistenceConfig::validate"],
+        bounds="election min/max, lease, rtt, heartbeat, per-request cap, both batch limits, retained_log_entries: full width; all other fields default",
+        stubs=[FMT, LVL, "filesystem probe of validate_directory -> succeeds"])])
 
 prop("C05",
      "Election restriction (a vote is granted only to a candidate whose last log id is at least as up-to-date) and purge "
@@ -210,9 +221,7 @@ prop("C37",
         bounds="put with TTL Some(0), 1-byte key/value", stubs=[FMT])])
 
 prop("WIP", "work in progress batch", [], [], [], [
-    H("c37_convert_insert_delete", "h_more", timeout=400, loops=6),
-    H("c37_convert_cas", "h_more", timeout=400, loops=6),
-    H("c37_convert_ttl_zero", "h_more", timeout=400, loops=6),
+    H("c09_commit_counts_only_current_voters", "h_more", timeout=1200, loops=17),
 ])
 prop("PROBE", "probes", [], [], [], [
     H("probe_default_cfg", "probe", timeout=600),
